@@ -197,9 +197,10 @@ class Trace:
         pend = lambda fut: "P" if fut is not None and not fut.done() else "-"
         # private flags no predicate reads (they are only compared with the model): a rename masks the component, it does not break the tie
         opt = lambda name: "?" if not hasattr(c, name) else str(int(getattr(c, name)))  # noqa: E731
+        optf = lambda name: "?" if not hasattr(c, name) else pend(getattr(c, name))  # noqa: E731
         return (f"{cs},{int(c.is_connected)}{int(c._handshake_complete)},f={'-' if f is None else exc_name(f)},x={opt('_expected_disconnect')},"
-                f"pp={opt('_send_pending_ping')},ping={u(c._ping_timer)},pong={u(c._pong_timer)},sf={pend(c._start_connect_future)},"
-                f"ff={pend(c._finish_connect_future)},h={int(c._frame_helper is not None)},s={int(c._socket is not None)},"
+                f"pp={opt('_send_pending_ping')},ping={u(c._ping_timer)},pong={u(c._pong_timer)},sf={optf('_start_connect_future')},"
+                f"ff={optf('_finish_connect_future')},h={int(c._frame_helper is not None)},s={int(c._socket is not None)},"
                 f"w={len(c._read_exception_futures)},os={int(c.on_stop is not None)},H={'+'.join(sorted(hs))}")
 
     def _hname(self, h):
